@@ -478,8 +478,20 @@ pub fn run_engine(s: &mut Src, ctx: &mut Ctx) -> Verdict {
     if probe_only() {
         return Verdict::Pass;
     }
-    ctx.describe(|| show(&ops));
+    // drawn last: one engine in six is not new - unrelated facts were inserted before (every second one retracted
+    // again), so that the history's handles lie beyond a round number and older retractions are on record
+    let warm = if ctx.exh == 0 && s.chance(1, 6) { crate::c17::warm_count(s) } else { 0 };
+    ctx.describe(|| if warm > 0 { format!("engine after {} unrelated warm-up facts (every second retracted); {}", warm, show(&ops)) } else { show(&ops) });
     let mut eng = IncrementalEngine::new();
+    for w in 0..warm {
+        let h = eng.insert_explicit("Warm".to_string(), data(1000 + w));
+        if w % 2 == 1 {
+            let _ = eng.retract(h);
+        }
+    }
+    if warm > 0 {
+        ctx.label("engine-not-new(warm-up-facts)");
+    }
     let mut hs: Vec<FactHandle> = Vec::new();
     let mut m = Model::default();
     let mut cl = Classes::default();
@@ -553,8 +565,20 @@ pub fn run_tms(s: &mut Src, ctx: &mut Ctx) -> Verdict {
     if probe_only() {
         return Verdict::Pass;
     }
-    ctx.describe(|| show(&ops));
+    let warm = if ctx.exh == 0 && s.chance(1, 6) { crate::c17::warm_count(s) } else { 0 };
+    ctx.describe(|| if warm > 0 { format!("TMS whose handles start at {} after {} unrelated facts (every second retracted); {}", warm + 1, warm, show(&ops)) } else { show(&ops) });
     let mut tms = TruthMaintenanceSystem::new();
+    for w in 0..warm {
+        let h = FactHandle::new(w as u64 + 1);
+        tms.add_explicit_justification(h);
+        if w % 2 == 1 {
+            let _ = tms.retract_with_cascade(h);
+        }
+    }
+    if warm > 0 {
+        ctx.label("tms-not-new(warm-up-facts)");
+    }
+    let off = warm as u64;
     let mut hs: Vec<FactHandle> = Vec::new();
     let mut m = Model::default();
     let mut cl = Classes::default();
@@ -562,12 +586,12 @@ pub fn run_tms(s: &mut Src, ctx: &mut Ctx) -> Verdict {
         let mut returned: Option<Vec<FactHandle>> = None;
         match op {
             Op::Ins(_) => {
-                let h = FactHandle::new(hs.len() as u64 + 1);
+                let h = FactHandle::new(off + hs.len() as u64 + 1);
                 tms.add_explicit_justification(h);
                 hs.push(h);
             }
             Op::Log(p) => {
-                let h = FactHandle::new(hs.len() as u64 + 1);
+                let h = FactHandle::new(off + hs.len() as u64 + 1);
                 tms.add_logical_justification(h, rule_of(hs.len(), step), p.iter().map(|&q| hs[q]).collect());
                 hs.push(h);
             }
